@@ -70,6 +70,20 @@ func HintOf(typs []types.Type) string {
 	return ""
 }
 
+// eqSpec: what typesmap.go's eq is documented to decide, computed here with go/types alone (the
+// repository's own eq is NOT consulted: a changed eq must show as a difference in behaviour).
+func eqSpec(this, that []types.Type) bool {
+	if len(this) != len(that) {
+		return false
+	}
+	for i := range this {
+		if !types.AssignableTo(types.Default(this[i]), types.Default(that[i])) {
+			return false
+		}
+	}
+	return true
+}
+
 // Sexp renders the context: hints, the eq matrix as go/types computes it, prefixes, reserved.
 func (c *Ctx) Sexp() string {
 	var b strings.Builder
@@ -88,7 +102,7 @@ func (c *Ctx) Sexp() string {
 			if j > 0 {
 				b.WriteByte(' ')
 			}
-			if derive.VerifTypesEq(x.Typs, y.Typs) {
+			if eqSpec(x.Typs, y.Typs) {
 				b.WriteByte('1')
 			} else {
 				b.WriteByte('0')
@@ -150,7 +164,12 @@ func poolIndex(pool []TypeList, typs []types.Type) int {
 
 // RunReal drives fresh typesMaps (one per prefix, sharing the reserved set as newPackage does)
 // through the calls and renders the outcome.
-func RunReal(c *Ctx, autoname, dedup bool, calls []Call) string {
+func RunReal(c *Ctx, autoname, dedup bool, calls []Call) (res string) {
+	defer func() {
+		if r := recover(); r != nil {
+			res = "(crash)" // the typesMap panicked: never equal to a model outcome
+		}
+	}()
 	reserved := map[string]struct{}{}
 	for _, r := range c.Reserved {
 		reserved[r] = struct{}{}
@@ -231,6 +250,9 @@ func Run(cfg hx.Config) (*hx.Meta, error) {
 		return nil, err
 	}
 	if err := runE2E(cfg, meta); err != nil {
+		return nil, err
+	}
+	if err := runNested(cfg, meta); err != nil {
 		return nil, err
 	}
 	return meta, nil
@@ -373,6 +395,57 @@ func runS1(cfg hx.Config, meta *hx.Meta) error {
 		meta.Cases += nn
 		meta.Count(fmt.Sprintf("s1/nested prefixes, sequences<=%d calls=%d", maxK-1, nn))
 	}
+	// argument type lists of different length, one a prefix of the other (the curried and the two-argument
+	// form of equal/compare, tuple over 2 and 3 values): different lists, whatever their common prefix
+	{
+		ptypes := pool[0].Typs[0]
+		itypes := pool[1].Typs[0]
+		pl2 := []TypeList{
+			{[]types.Type{ptypes}, HintOf([]types.Type{ptypes})},
+			{[]types.Type{ptypes, ptypes}, HintOf([]types.Type{ptypes, ptypes})},
+			{[]types.Type{ptypes, ptypes, ptypes}, HintOf([]types.Type{ptypes})},
+			{[]types.Type{itypes}, HintOf([]types.Type{itypes})},
+			{[]types.Type{itypes, itypes}, HintOf([]types.Type{itypes})},
+		}
+		var opts []Call
+		for _, n := range []string{"deriveEqual", "deriveEqual_"} {
+			for t := range pl2 {
+				opts = append(opts, Call{0, n, t})
+			}
+		}
+		c := &Ctx{Pool: pl2, Prefixes: []string{"deriveEqual"}, Reserved: []string{}}
+		cs := c.Sexp()
+		path := filepath.Join(cfg.Out, "s1-lengths.obs")
+		f, err := os.Create(path)
+		if err != nil {
+			return err
+		}
+		w := bufio.NewWriterSize(f, 1<<20)
+		nn := 0
+		var seq []Call
+		var rec func()
+		rec = func() {
+			if len(seq) > 0 {
+				calls := seq
+				fmt.Fprintln(w, Line("pkg", c, cs, calls, func(a, d bool) string { return RunReal(c, a, d, calls) }))
+				nn++
+			}
+			if len(seq) == 3 {
+				return
+			}
+			for _, o := range opts {
+				seq = append(seq, o)
+				rec()
+				seq = seq[:len(seq)-1]
+			}
+		}
+		rec()
+		w.Flush()
+		f.Close()
+		meta.ObsFiles = append(meta.ObsFiles, path)
+		meta.Cases += nn
+		meta.Count(fmt.Sprintf("s1/type lists of different length, sequences<=3 calls=%d", nn))
+	}
 	total := 0
 	for _, c := range counts {
 		total += c
@@ -464,7 +537,8 @@ var e2ePrefixes = []string{"deriveEqual", "deriveCompare"}
 
 type e2ePkg struct {
 	id       int
-	ntypes   int // pool restricted to the first ntypes entries
+	ntypes   int  // pool restricted to the first ntypes entries
+	cur      bool // type indices ntypes..2*ntypes-1 are the one-argument (curried) calls over the same types
 	reserved []string
 	calls    []Call
 	class    string
@@ -491,8 +565,15 @@ func (p *e2ePkg) source() string {
 		fmt.Fprintf(&b, "x%d, y%d %s", i, i, e2ePool[i].goType)
 	}
 	b.WriteString(") {\n")
-	for _, c := range p.calls {
-		fmt.Fprintf(&b, "\t_ = %s(x%d, y%d)\n", c.Name, c.T, c.T)
+	for ci, c := range p.calls {
+		call := fmt.Sprintf("%s(x%d, y%d)", c.Name, c.T, c.T)
+		if c.T >= p.ntypes {
+			call = fmt.Sprintf("%s(x%d)", c.Name, c.T-p.ntypes)
+		} else if (ci+p.id)%3 == 0 {
+			// every third two-argument call sits inside a conversion to a predeclared type
+			call = map[int]string{0: "bool", 1: "int"}[c.P] + "(" + call + ")"
+		}
+		fmt.Fprintf(&b, "\t_ = %s\n", call)
 	}
 	if !p.split() {
 		b.WriteString(p.reservedCalls())
@@ -525,20 +606,28 @@ func (p *e2ePkg) sourceZ() string {
 	return "package p\n\n" + p.reservedDecls() + "func useZ() {\n" + p.reservedCalls() + "}\n"
 }
 
+// nvirt: the number of argument type lists of the package (two-argument lists, and with cur the one-argument ones)
+func (p *e2ePkg) nvirt() int {
+	if p.cur {
+		return 2 * p.ntypes
+	}
+	return p.ntypes
+}
+
 func (p *e2ePkg) ctxSexp() string {
 	var b strings.Builder
 	b.WriteString("(ctx (hints")
-	for i := 0; i < p.ntypes; i++ {
-		if e2ePool[i].hint == "" {
+	for i := 0; i < p.nvirt(); i++ {
+		if e2ePool[i%p.ntypes].hint == "" {
 			b.WriteString(" ()")
 		} else {
-			b.WriteString(" (" + e2ePool[i].hint + ")")
+			b.WriteString(" (" + e2ePool[i%p.ntypes].hint + ")")
 		}
 	}
 	b.WriteString(") (teq")
-	for i := 0; i < p.ntypes; i++ {
+	for i := 0; i < p.nvirt(); i++ {
 		b.WriteString(" (")
-		for j := 0; j < p.ntypes; j++ {
+		for j := 0; j < p.nvirt(); j++ {
 			if j > 0 {
 				b.WriteByte(' ')
 			}
@@ -717,7 +806,7 @@ func runE2E(cfg hx.Config, meta *hx.Meta) error {
 	for i := 0; i < nLarge; i++ {
 		k := 6 + r.Intn(14)
 		nt := 4 + r.Intn(len(e2ePool)-3)
-		p := &e2ePkg{ntypes: nt, class: "large"}
+		p := &e2ePkg{ntypes: nt, class: "large", cur: i%2 == 1}
 		suffixes := []string{"", "_", "_N", "_i", "_in", "_int", "_1", "_2", "X", "Y", "_s", "_N2"}
 		var resv []string
 		if r.Bool() {
@@ -738,13 +827,17 @@ func runE2E(cfg hx.Config, meta *hx.Meta) error {
 		p.reserved = resv
 		for j := 0; j < k; j++ {
 			pl := r.Intn(2)
-			c := Call{pl, e2ePrefixes[pl] + hx.Pick(r, suffixes), r.Intn(nt)}
+			c := Call{pl, e2ePrefixes[pl] + hx.Pick(r, suffixes), r.Intn(p.nvirt())}
 			if len(p.calls) > 0 && r.Intn(3) == 0 {
 				// injected collision with an earlier call of the same plugin
 				o := hx.Pick(r, p.calls)
 				switch r.Intn(3) {
 				case 0: // conflict: same name, other type
-					c = Call{o.P, o.Name, r.Intn(nt)}
+					c = Call{o.P, o.Name, r.Intn(p.nvirt())}
+					if p.cur && r.Bool() {
+						// the same name for the curried and the two-argument form over one type
+						c.T = (o.T + p.ntypes) % (2 * p.ntypes)
+					}
 				case 1: // duplicate: other name, same type
 					c = Call{o.P, e2ePrefixes[o.P] + hx.Pick(r, suffixes), o.T}
 				default: // repetition
@@ -929,6 +1022,14 @@ func e2eRun(cfg hx.Config, meta *hx.Meta, p *e2ePkg, src, dir string, a, d, vet 
 		if !ok {
 			return true
 		}
+		if (id.Name == "bool" || id.Name == "int") && len(call.Args) == 1 {
+			// the conversion the harness wrapped around the call
+			if inner, ok := call.Args[0].(*ast.CallExpr); ok {
+				if iid, ok := inner.Fun.(*ast.Ident); ok {
+					call, id = inner, iid
+				}
+			}
+		}
 		if len(names) >= len(p.calls) {
 			nres++
 			return true
@@ -976,6 +1077,13 @@ func e2eRun(cfg hx.Config, meta *hx.Meta, p *e2ePkg, src, dir string, a, d, vet 
 			case "p/y/model":
 				ti = e2eLocal + 1
 			}
+		}
+		nparams := 0
+		for _, f := range fd.Type.Params.List {
+			nparams += len(f.Names)
+		}
+		if nparams == 1 && ti >= 0 {
+			ti += p.ntypes // the one-argument form
 		}
 		tables[pl] = append(tables[pl], fmt.Sprintf("(%s %d)", fd.Name.Name, ti))
 		perClass[[2]int{pl, ti}]++
